@@ -171,15 +171,22 @@ func (h265dp *h265Depacketizer) writeFrame(rtpTimestamp uint32, frame *codec.Fra
 	nalType := (frame.Payload[0] >> 1) & 0x3f
 	switch nalType {
 	case hevc.NalVps:
+		// 只采纳能够解码的参数集：一个被截断/损坏的参数集一旦被采纳，后面正确的就再也进不来了
 		if len(h265dp.meta.Vps) == 0 {
-			h265dp.meta.Vps = frame.Payload
+			var vps hevc.H265RawVPS
+			if vps.Decode(frame.Payload) == nil {
+				h265dp.meta.Vps = frame.Payload
+			}
 		}
 	case hevc.NalSps:
 		if len(h265dp.meta.Sps) == 0 {
-			h265dp.meta.Sps = frame.Payload
+			var sps hevc.H265RawSPS
+			if sps.Decode(frame.Payload) == nil {
+				h265dp.meta.Sps = frame.Payload
+			}
 		}
 	case hevc.NalPps:
-		if len(h265dp.meta.Pps) == 0 {
+		if len(h265dp.meta.Pps) == 0 && len(frame.Payload) > 2 {
 			h265dp.meta.Pps = frame.Payload
 		}
 	}
